@@ -5,11 +5,12 @@ Local Open Scope Z_scope.
 Ltac Zify.zify_post_hook ::= Z.div_mod_to_equations.
 
 Definition ctx_ok (c:ictx) : Prop := 1 <= e c /\ 2 <= cap c /\ cap c mod 2 = 0.
-Definition within (c:ictx) (x r:Z) : Prop := Z.abs (x - r) <= e c.
+(* x is an element of the array, hence a value of the element type; the 8/16-bit kernels clamp reconstructions to that range *)
+Definition within (c:ictx) (x r:Z) : Prop := in_type (ty c) x = true -> Z.abs (x - r) <= e c.
 
 Lemma quant_int_cases c h p x q r : ctx_ok c -> quant_int c h p x = Some (q, r) ->
   let d := Z.abs (x - p) in let s := (d + e c) / (2 * e c) in
-  d < (cap c - 1) * e c /\ ((p <= x /\ q = radius c + s /\ r = p + s * (2 * e c)) \/ (x < p /\ q = radius c - s /\ r = p - s * (2 * e c))).
+  d < (cap c - 1) * e c /\ ((p <= x /\ q = radius c + s /\ r = clamp_ty (ty c) (p + s * (2 * e c))) \/ (x < p /\ q = radius c - s /\ r = clamp_ty (ty c) (p - s * (2 * e c)))).
 Proof.
   intros (He & Hc & Hm) H. unfold quant_int in H. destruct (forced_exact c h); [discriminate|].
   destruct (Z.ltb_spec (Z.abs (x - p)) ((cap c - 1) * e c)); [|discriminate].
@@ -36,18 +37,29 @@ Qed.
 Lemma quant_int_dequant c h p x q r : ctx_ok c -> quant_int c h p x = Some (q, r) -> dequant_int c p q = r.
 Proof.
   intros Hc H. destruct (quant_int_cases c h p x q r Hc H) as (_ & Hs). unfold dequant_int.
-  destruct Hs as [(_ & -> & ->)|(_ & -> & ->)]; ring.
+  destruct Hs as [(_ & -> & ->)|(_ & -> & ->)]; f_equal; ring.
+Qed.
+
+Lemma tmin_le_tmax t : 0 < bits t -> tmin t <= tmax t.
+Proof. intro H. unfold tmin, tmax. destruct (sgn t); [|pose proof (Z.pow_pos_nonneg 2 (bits t) ltac:(lia) ltac:(lia)); lia].
+  pose proof (Z.pow_nonneg 2 (bits t - 1) ltac:(lia)). lia. Qed.
+
+(* clamping to the range that contains x never moves the reconstruction away from x *)
+Lemma clamp_closer t x v : in_type t x = true -> Z.abs (x - clamp_ty t v) <= Z.abs (x - v).
+Proof.
+  unfold in_type, clamp_ty. intro H. apply andb_true_iff in H as [H1 H2]. apply Z.leb_le in H1, H2.
+  destruct (clampT t); lia.
 Qed.
 
 (* (b) an emitted code means the reconstruction is within the bound: |d - 2e*floor((d+e)/2e)| <= e *)
 Lemma quant_int_ok c h p x q r : ctx_ok c -> quant_int c h p x = Some (q, r) -> within c x r.
 Proof.
   intros Hc H. destruct (quant_int_cases c h p x q r Hc H) as (_ & Hs). destruct Hc as (He & _ & _).
-  unfold within.
+  unfold within. intro Hx.
   set (d := Z.abs (x - p)) in *. set (s := (d + e c) / (2 * e c)) in *.
   assert (B: 2 * e c * s <= d + e c < 2 * e c * s + 2 * e c).
   { unfold s. pose proof (Z.div_mod (d + e c) (2 * e c) ltac:(lia)). pose proof (Z.mod_pos_bound (d + e c) (2 * e c) ltac:(lia)). lia. }
-  destruct Hs as [(Hle & _ & ->)|(Hlt & _ & ->)]; unfold d in B; lia.
+  destruct Hs as [(Hle & _ & ->)|(Hlt & _ & ->)]; (etransitivity; [apply clamp_closer, Hx|]); unfold d in B; lia.
 Qed.
 
 Section Instance.
@@ -80,7 +92,7 @@ Section Instance.
   Proof.
     pose proof (within_bound Z ictx pred_c quant_c (fun _ x => x) (fun _ => within c) c xs h
                   (fun h p x q r H => quant_int_ok c h p x q r Hc H)
-                  (fun x _ => ltac:(unfold within; rewrite Z.sub_diag; cbn; destruct Hc; lia))) as W.
+                  (fun x _ => ltac:(unfold within; intros _; rewrite Z.sub_diag; cbn; destruct Hc; lia))) as W.
     rewrite enc_c_eq in W. exact W.
   Qed.
 End Instance.
@@ -94,11 +106,12 @@ Lemma fractional_bound_refuted : exists p x e10,
   0 < e10 < 10 /\ 10 * Z.abs (x - r) > e10.
 Proof. exists 5, 7, 7. vm_compute. split; [split; reflexivity|reflexivity]. Qed.
 
-(* a reconstruction that leaves the element type: uint8, e = 3, pred 250, value 255 -> 256 wraps to 0 *)
+(* a reconstruction that leaves the element type (the 32- and 64-bit files do not clamp): uint32, e = 3, pred 2^32-6,
+   value 2^32-1 -> 2^32 wraps to 0 *)
 Lemma narrowing_refuted : exists p x,
-  let c := {| e := 3; cap := 32; shape := [100]; ty := ity_of 2 |} in
+  let c := {| e := 3; cap := 32; shape := [100]; ty := ity_of 6 |} in
   match quant_int c [0; 0] p x with
   | Some (q, r) => in_type (ty c) x = true /\ in_type (ty c) p = true /\ in_type (ty c) r = false
   | None => False
   end.
-Proof. exists 250, 255. vm_compute. repeat split. Qed.
+Proof. exists 4294967290, 4294967295. vm_compute. repeat split. Qed.
